@@ -44,6 +44,20 @@ CLAIMED = {
               "definition; warnings are required only where the model drops with a warning, never matched by text."),
         technique=TECH + ": seeded space-link fault histories (drop/dup/reorder/flag-flip/count-jump/producer restart) checked "
                          "per arrival against a per-APID reassembly reference model"),
+    "C19": dict(
+        level="exploration", design="4.6",
+        text=("A recorder task writes n uniquely numbered packets to a simulated disk and may crash mid-write; cli.open is the "
+              "simulated disk's open (real BufferedReader over a raw device with drawn buffer size and short reads, and an "
+              "EOF-read budget that decides non-termination deterministically). spp describe-packets and spp parse [--packet i] "
+              "[--skip-header-bytes k] run through click's CliRunner. Exhaustive sweep in every run: n = 0..14, every index "
+              "0..n+1; seeded part: n up to 60, torn tails, prefixes, chunking. Oracle: exit code 0, no exception, rows == "
+              "expected header tuples (all if <= 10, else 5 + ellipsis + 5), parse shows exactly the indexed packet's unique "
+              "counter or an out-of-range message."),
+        note=("The row-selection sentence is a pure function of n and is swept exhaustively over the stated bound; what makes "
+              "this a simulation target is termination/no-crash on every file incl. empty and torn ones. Output is parsed "
+              "from rich's table (seven integer cells per row)."),
+        technique=TECH + ": simulated disk behind cli.open (torn writes, short reads, EOF-read budget) driving the real CLI "
+                         "through CliRunner; exhaustive n/index sweep plus seeded files"),
 }
 
 PENDING = {
